@@ -32,6 +32,10 @@ const (
 
 	// ToBeForceRemovedByAutoscalerKey specifies the key used to mark a node for force removal
 	ToBeForceRemovedByAutoscalerKey = "atlassian.com/escalator-force"
+
+	// maxToBeRemovedTimestamp is the largest Unix timestamp time.Unix represents without overflowing
+	// (the seconds between year 1 and 1970 are added internally)
+	maxToBeRemovedTimestamp = 1<<63 - 1 - 62135596800
 )
 
 // AddToBeRemovedTaint takes a k8s node and adds the ToBeRemovedByAutoscaler taint to the node
@@ -107,6 +111,11 @@ func GetToBeRemovedTime(node *apiv1.Node) (*time.Time, error) {
 		timestamp, err := strconv.ParseInt(taint.Value, 10, 64)
 		if err != nil {
 			return nil, err
+		}
+		// time.Unix silently wraps around for seconds this close to the int64 limit,
+		// which would turn a timestamp in the far future into one in the far past
+		if timestamp > maxToBeRemovedTimestamp {
+			return nil, fmt.Errorf("taint timestamp %v is out of range", timestamp)
 		}
 		result := time.Unix(timestamp, 0)
 		return &result, nil
